@@ -88,6 +88,14 @@ def all_cases(tier):
         for full in (False, True):
             for resolve in (False, True):
                 yield ("CLI", shape, full, resolve)
+    # I: the inspection agent called directly (griffe.inspect with and without import paths), one module, every fault kind: the import path is restored
+    for kd in [None, *range(len(FAULTS))]:
+        for how in ("inspect-no-import-paths", "inspect-with-import-paths", "temporary-inspected-module"):
+            yield ("I", kd, how)
+    # R: a loader REUSED after its inspection switches were turned off: what it loads afterwards is loaded statically only
+    for shape in ("sourceless-target", "sourceless-dependency"):
+        for how in ("allow_inspection=False", "both-False"):
+            yield ("R", shape, how)
     nf = 2 if tier == "quick" else 3
     for k in range(0, nf + 1):
         for positions in itertools.combinations(range(len(FMOD)), k):
@@ -199,6 +207,65 @@ def run_case(griffe, acc, case):
                     acc.observe([outcome, ran])
             finally:
                 os.chdir(cwd)
+        elif kind == "I":
+            _, kd, how = case
+            from pathlib import Path
+
+            src = os.path.join(d, "src")
+            body = S("imod").replace("__SENTINEL_DIR__", repr(sroot)) + (FAULTS[kd] + "\n" if kd is not None else "") + "def f(a): ...\n"
+            sandbox.write_tree(src, {"imod.py": body})
+            cd = {"case": ["I", kd, how]}
+            before = _snapshot()
+            outcome = "ok"
+            try:
+                if how == "inspect-no-import-paths":
+                    griffe.inspect("imod", filepath=Path(src) / "imod.py")
+                elif how == "inspect-with-import-paths":
+                    griffe.inspect("imod", filepath=Path(src) / "imod.py", import_paths=[src])
+                else:
+                    with griffe.temporary_inspected_module("def g(): ...\n" + (FAULTS[kd] if kd is not None and kd not in (2, 3) else "")):
+                        pass
+            except (ImportError, griffe.LoadingError) as e:
+                outcome = "refused:" + type(e).__name__
+            except BaseException as e:  # noqa: BLE001
+                outcome = "escaped:" + type(e).__name__
+            ctx = f"{how}/{FAULT_NAMES[kd] if kd is not None else 'no-fault'}"
+            _judge_state(acc, cd, before, sroot, {"imod"}, 1, "direct/" + ctx, allow_modules=True)
+            acc.case(cd, outcome=f"direct/{how}:{outcome}", nontrivial=True)
+            acc.observe(outcome)
+        elif kind == "R":
+            _, shape, how = case
+            files = {k: v.replace("__SENTINEL_DIR__", repr(sroot)) for k, v in SHAPES[shape].items()}
+            files["plain/__init__.py"] = "x = 1\n"
+            src = os.path.join(d, "src")
+            sandbox.write_tree(src, {k: v for k, v in files.items() if not k.endswith(".pyc")})
+            for rel, text in files.items():
+                if rel.endswith(".pyc"):
+                    import py_compile
+
+                    tmp_src = os.path.join(d, "tmp_" + os.path.basename(rel)[:-1])
+                    with open(tmp_src, "w") as f:
+                        f.write(text)
+                    py_compile.compile(tmp_src, cfile=os.path.join(src, rel), doraise=True)
+            cd = {"case": ["R", shape, how]}
+            before = _snapshot()
+            outcome = "ok"
+            try:
+                loader = griffe.GriffeLoader(search_paths=[src])
+                loader.load("plain")
+                loader.allow_inspection = False
+                if how == "both-False":
+                    loader.force_inspection = False
+                loader.load("pkg")
+                loader.resolve_aliases(implicit=True, external=True)
+            except (ImportError, griffe.LoadingError) as e:
+                outcome = "refused:" + type(e).__name__
+            except BaseException as e:  # noqa: BLE001
+                outcome = "escaped:" + type(e).__name__
+            names = {"pkg", "legacy", "legacy2"}
+            _judge_state(acc, cd, before, sroot, names, 2, f"reused-loader/{shape}/{how}")
+            acc.case(cd, outcome=f"reused/{shape}:{outcome}", nontrivial=True)
+            acc.observe(outcome)
         else:
             _, faults, mode, target = case[:4]
             default_paths = len(case) > 4
